@@ -396,6 +396,40 @@ func (c16) Run(ctx *Ctx, ci interface{}) (o Outcome) {
 		if c.Cli != "" && cliEligible && o.V == nil && ctx.Diverged == "" {
 			c.runCLI(ctx, &o, run.results)
 		}
+		if o.V == nil && ctx.Diverged == "" && !faulty && Mix(c.Seed, "smallest-reference")%12 == 0 {
+			// the smallest references there are - a start codon, a start and a stop codon - alone: whatever the
+			// best hit, the call returns one result per sequence (or an error) on a closed stream
+			d := *c
+			d.GiveRef, d.ExtraRefs, d.RefAt, d.BadAt, d.Choices = true, nil, 0, -1, nil
+			d.Orf = []string{"ATG", "ATGTAA", "ATGGCTTAA"}[Mix(c.Seed, "which")%3]
+			pr := d.runPhase(ctx, 1+int(Mix(c.Seed, "cpus")%3), SchedCfg{Seed: 1, Policy: PolFIFO, MaxSteps: budget})
+			o.Add("smallest_reference_runs", 1)
+			for _, p := range pr.sr.Panics {
+				fs := goalignFuncs(p.Stack)
+				top := "?"
+				if len(fs) > 0 {
+					top = fs[0]
+				}
+				o.Fail("panic:"+top, "reference %q alone: goroutine g%d panicked: %s\n%s", d.Orf, p.Gid, p.Panic, p.Stack)
+				return
+			}
+			if pr.sr.Deadlock || pr.sr.Budget {
+				o.Fail("hang:"+pr.sr.BlockedFuncs(), "reference %q alone: the result stream was never closed\n%s", d.Orf, pr.sr.Stacks)
+				return
+			}
+			if pr.callErr == nil && firstErr(pr.results) == "" {
+				seen := map[string]int{}
+				for _, r := range pr.results {
+					seen[r.Name]++
+				}
+				for _, nm := range c.Names {
+					if seen[nm] != 1 {
+						o.Fail("lost-or-duplicate-result:Phase", "reference %q alone: sequence %s has %d results (%d results for %d sequences, no error)", d.Orf, nm, seen[nm], len(pr.results), len(c.Names))
+						return
+					}
+				}
+			}
+		}
 	}()
 	if c.RunFirst {
 		// a process that has phased nothing yet starts with several workers
